@@ -28,6 +28,8 @@ type c10ValState struct {
 	jailed bool
 	tokens math.Int
 	chains string // sorted chain:address list
+	// jailedEarly: jailed by the message-consensus end-blocker (which runs before the snapshot is built in the same block)
+	jailedEarly bool
 }
 
 func (w *JobWorld) c10Observe() (map[string]c10ValState, []string) {
@@ -44,7 +46,7 @@ func (w *JobWorld) c10Observe() (map[string]c10ValState, []string) {
 			cs = append(cs, ci.ChainReferenceID+":"+ci.Address)
 		}
 		sort.Strings(cs)
-		out[v.Acct.ValBech32()] = c10ValState{sv.IsBonded(), sv.Jailed, sv.Tokens, strings.Join(cs, ",")}
+		out[v.Acct.ValBech32()] = c10ValState{sv.IsBonded(), sv.Jailed, sv.Tokens, strings.Join(cs, ","), false}
 	}
 	var active []string
 	for _, c := range w.Order {
@@ -231,8 +233,13 @@ func c10(r *core.Run) []*core.Violation {
 				}
 				okBefore := ps.bonded && !ps.jailed && supportsAll(ps, prevActive)
 				okAfter := cs.bonded && !cs.jailed && supportsAll(cs, curActive)
+				if !ps.jailed && cs.jailed && cs.jailedEarly {
+					// jailed in this very block, but by an end-blocker that runs before the one that builds the snapshot
+					okBefore = false
+					r.Stats.Probe("jailed_before_snapshot_in_same_block")
+				}
 				if !okBefore && !okAfter {
-					bad("snapshot-ineligible-member", h, nil, "snapshot %d contains %s which was not (bonded, unjailed, with an account on every active chain) before or after the block", id, a)
+					bad("snapshot-ineligible-member", h, map[string]string{"jailed_same_block": fmt.Sprint(!ps.jailed && cs.jailed)}, "snapshot %d contains %s which was not (bonded, unjailed, with an account on every active chain) before or after the block (jailed before / after: %v / %v)", id, a, ps.jailed, cs.jailed)
 				}
 			}
 			if !sum.Equal(s.TotalShares) {
@@ -296,6 +303,46 @@ func c10(r *core.Run) []*core.Violation {
 		if prevState == nil {
 			prevState, prevActive = curState, curActive
 		}
+		// validators without evidence on a contested message that was pruned in this block (age > 300 at a height divisible
+		// by 50, with evidence from at least 10% of the shares) are jailed by the message-consensus end-blocker, i.e.
+		// before this block's snapshot is built. (The stored jail reason is not used: a snapshot build may clear it.)
+		if br.Height%50 == 0 {
+			snap, _ := w.N.App.ValsetKeeper.FindSnapshotByID(w.Ctx(), lastID)
+			for _, id := range SortedIDs(w.Prev) {
+				q := w.Prev[id]
+				if _, still := w.Cur[id]; still || br.Height-q.Raw.AddedAtBlockHeight <= 300 || (q.Raw.PublicAccessData == nil && q.Raw.ErrorData == nil) || snap == nil {
+					continue
+				}
+				att := map[string]bool{}
+				for _, e := range q.Raw.Evidence {
+					att[e.ValAddress.String()] = true
+				}
+				sum := math.ZeroInt()
+				for _, v := range snap.Validators {
+					if att[v.Address.String()] {
+						sum = sum.Add(v.ShareCount)
+					}
+				}
+				if sum.MulRaw(10).LT(snap.TotalShares) {
+					continue
+				}
+				for _, v := range snap.Validators {
+					a := v.Address.String()
+					if cs, ok := curState[a]; ok && !att[a] && cs.jailed && !prevState[a].jailed {
+						cs.jailedEarly = true
+						curState[a] = cs
+					}
+				}
+			}
+		}
+		for _, a := range core.SortedKeys(curState) {
+			if ps, ok := prevState[a]; ok && !ps.jailed && curState[a].jailedEarly {
+				r.Stats.Probe("c10_jailed_by_message_pruning")
+				if cur, err := w.N.App.ValsetKeeper.GetCurrentSnapshot(w.Ctx()); err == nil && cur != nil && cur.Id > lastID {
+					r.Stats.Probe("c10_jailed_by_message_pruning_in_snapshot_block")
+				}
+			}
+		}
 		checkSnapshots(br.Height, curState, curActive)
 		for _, id := range SortedIDs(w.Cur) {
 			q := w.Cur[id]
@@ -326,7 +373,38 @@ func c10(r *core.Run) []*core.Violation {
 		return viols
 	}
 	nBlocks := 90 + t.Intn(110)
+	pruneProfile := false
+	if layout < 4 && t.Draw(6) == 5 {
+		// long run in which most relayers stop attesting: relayed messages stay contested, are pruned after 300 blocks at a
+		// snapshot height, and the message-consensus end-blocker jails the silent validators just before the snapshot is built
+		total := math.ZeroInt()
+		for _, v := range w.Vals {
+			total = total.Add(v.Stake)
+		}
+		sum := math.ZeroInt()
+		att := map[int]bool{}
+		for i, v := range w.Vals {
+			if sum.MulRaw(100).GTE(total.MulRaw(15)) {
+				break
+			}
+			sum = sum.Add(v.Stake)
+			att[i] = true
+		}
+		if sum.MulRaw(100).LT(total.MulRaw(60)) {
+			for i, p := range w.Pigeons {
+				p.NoAttest = !att[i]
+			}
+			nBlocks = 370 + t.Intn(60)
+			pruneProfile = true
+			r.Stats.Probe("profile_prune_jailing")
+		}
+	}
 	for i := 0; i < nBlocks && !w.Aborted && len(viols) == 0; i++ {
+		if pruneProfile && i > 300 && t.Chance(1, 2) {
+			// keep the stake distribution moving, so that every snapshot height has something new to record
+			u := w.Users[t.Intn(len(w.Users))]
+			w.Delegate(u, t.Intn(cfg.NVals), int64(200_000_000+t.Intn(600_000_000)))
+		}
 		// staking churn (the constructed layouts keep their stakes until the bridge deployment message has been issued)
 		if (layout < 4 || i > 25) && t.Chance(1, 3) {
 			u := w.Users[t.Intn(len(w.Users))]
